@@ -365,4 +365,39 @@ theorem complete_at_stop (E : Env S) (hnd : RowsNodup E.G) (hst : StableAfter E)
         · exact hg.yb _ _ g2
         · rw [hq] at g1; cases g1
 
+/-- every yielded program has a cost (is a priced derivation of the start symbol) -/
+theorem yields_priced (E : Env S) (hnd : RowsNodup E.G) (hst : StableAfter E) (hprod : Productive E) (hpos : PosW E)
+    (fuel k : Nat) (r : Gen S × List Prog × Bool) (h : take E fuel k (Gen.new E.G) [] = some r) :
+    ∀ p ∈ r.2.1, ∃ x, costOf E p E.G.start = some x := by
+  intro p hp
+  have h0 : TK E (Gen.new E.G) [] := Or.inl ⟨rfl, rfl, rfl, rfl⟩
+  rcases (take_k E hnd hst hprod hpos fuel k _ _ r h0 h).1 with ⟨_, _, _, h3⟩ | hg
+  · rw [h3] at hp; cases hp
+  · obtain ⟨c, _, hc⟩ := hg.yc p hp
+    exact ⟨c.fin, hc⟩
+
+/-- `take k` that did not see the end returns exactly `k` more programs -/
+theorem take_length (E : Env S) (fuel : Nat) : ∀ (k : Nat) (g : Gen S) (acc : List Prog) (r : Gen S × List Prog × Bool),
+    take E fuel k g acc = some r → r.2.2 = false → r.2.1.length = acc.length + k := by
+  intro k
+  induction k with
+  | zero => intro g acc r h _; simp only [take] at h; cases h; rfl
+  | succ k ih =>
+    intro g acc r h hf
+    simp only [take] at h
+    split at h
+    · cases h
+    · cases h; cases hf
+    · have := ih _ _ r h hf
+      rw [this]; simp; omega
+
+/- without a filter every program is clean -/
+mutual
+  theorem clean_accept_all (f : Prog → Bool) (hf : ∀ t, f t = true) : ∀ t : Prog, clean f t = true
+    | .node F kids => by simp only [clean, hf, Bool.true_and]; exact cleanList_accept_all f hf kids
+  theorem cleanList_accept_all (f : Prog → Bool) (hf : ∀ t, f t = true) : ∀ ts : List Prog, cleanList f ts = true
+    | [] => rfl
+    | t :: ts => by simp only [cleanList, Bool.and_eq_true]; exact ⟨clean_accept_all f hf t, cleanList_accept_all f hf ts⟩
+end
+
 end PS.Beap
